@@ -628,6 +628,15 @@ def strip_sites(tree):
     return tuple(strip_sites(x) if isinstance(x, tuple) else x for x in tree)
 
 
+def cut(t, d):
+    """origin tree truncated at depth d (uniform comparison of trees that hit the depth limit at different places)"""
+    if not isinstance(t, tuple):
+        return t
+    if d <= 0:
+        return ("…",)
+    return tuple(cut(x, d - 1) if isinstance(x, tuple) else x for x in t)
+
+
 def walk(tree):
     """pre-order iterator over all nodes of an origin tree"""
     st = [tree]
